@@ -14,7 +14,6 @@ import (
 	"context"
 	"fmt"
 	"io"
-	"runtime"
 	"sort"
 	"time"
 
@@ -330,45 +329,6 @@ func (s *VerifStore) Snapshot() VerifSnap {
 
 // PoolRoot is refPool.root() (target of the "pool" symlink).
 func (s *VerifStore) PoolRoot() string { return s.LM.refPool.root() }
-
-// Quiesce waits until the background resolution of every layer of ref that a
-// getLayer call started has recorded its result (getLayer returns as soon as the
-// wanted layer is there and leaves the other layers resolving in goroutines).
-// It returns false when that does not happen within the (real-time) limit.
-func (s *VerifStore) Quiesce(ref reference.Spec, limit time.Duration) bool {
-	manifest, _, err := s.LM.refPool.readManifestAndConfig(ref)
-	if err != nil {
-		return true // no manifest: getLayer returned before starting any resolution
-	}
-	deadline := time.Now().Add(limit)
-	for i := 0; ; i++ {
-		s.LM.mu.Lock()
-		n := 0
-		if m := s.LM.resolveLayerCache[ref.String()]; m != nil {
-			for _, l := range manifest.Layers {
-				if _, ok := m[l.Digest.String()]; ok {
-					n++
-				}
-			}
-		}
-		s.LM.mu.Unlock()
-		if n == len(manifest.Layers) {
-			VerifQuiesceSpins += i
-			return true
-		}
-		if time.Now().After(deadline) {
-			return false
-		}
-		if i < 1000 {
-			runtime.Gosched()
-		} else {
-			time.Sleep(100 * time.Microsecond)
-		}
-	}
-}
-
-// VerifQuiesceSpins accumulates the polling iterations of Quiesce (diagnostics).
-var VerifQuiesceSpins int
 
 // HasManifest reports whether the pool holds manifest and config of ref on disk.
 func (s *VerifStore) HasManifest(ref reference.Spec) bool {
